@@ -40,12 +40,16 @@ pub fn core_units(thorough: bool) -> Vec<Unit> {
         Op::Mod(S0, Newest, 30),
         Op::ModIds(S0, vec![Stale, A], 20, false),
         Op::ModIds(S0, vec![A, A], 15, false),
+        Op::StreamModPairs(S0, vec![(A, 30), (B, 0)]),
+        Op::StreamModPairs(S0, vec![(A, 5), (A, 30)]),
+        // a subscription outlives its topic and keeps serving, acknowledging and re-queueing what it holds
+        Op::DeleteTopic(T0),
         Op::AdvBefore,
         Op::AdvPast,
         Op::Adv(3_000),
     ];
     let mut v = vec![];
-    for n in if thorough { vec![4, 6] } else { vec![4, 5] } {
+    for n in if thorough { vec![4, 6, 7] } else { vec![4, 5] } {
         v.push(seq_unit(cfg("lease-lifecycle", "one topic, two subscriptions; acks / nacks / modifications singly and in mixed batches (stale or unknown id first, duplicate id), unary and as stream control messages, several coexisting deliveries with equal and different deadlines, every deadline probed", base_setup(), alphabet.clone(), n)));
     }
     v
@@ -67,11 +71,14 @@ pub fn stream_units(thorough: bool) -> Vec<Unit> {
         Op::Ack(S0, Newest),
         Op::AckIds(S1, vec![Stale, A], true),
         Op::ModIds(S0, vec![Stale, A], 30, true),
+        Op::StreamModPairs(S0, vec![(A, 0), (B, 30)]),
+        Op::StreamModPairs(S1, vec![(A, 30), (A, 0)]),
+        Op::DeleteTopic(T0),
         Op::AdvBefore,
         Op::AdvPast,
     ];
     let mut v = vec![];
-    for n in if thorough { vec![4, 6] } else { vec![4, 5] } {
+    for n in if thorough { vec![4, 6, 7] } else { vec![4, 5] } {
         v.push(seq_unit(cfg("stream-consumers", "two subscriptions, StreamingPulls with max_outstanding 1000 and 1 opened at any point and kept open, pulls, nacks, acks and modifications (unary and as control messages), deadline crossings", base_setup(), alphabet.clone(), n)));
     }
     v
@@ -198,7 +205,7 @@ pub fn c05(thorough: bool) -> Vec<Unit> {
         Op::AdvPast,
     ];
     let mut v = vec![];
-    for n in if thorough { vec![4, 6] } else { vec![4, 5] } {
+    for n in if thorough { vec![4, 6, 7] } else { vec![4, 5] } {
         v.push(seq_unit(cfg("modify", "modifications (extend, shorten, cap at 600, nack) mixed with pulls, acks and deadline crossings", base_setup(), alphabet.clone(), n)));
     }
     v.push(c05_input(thorough));
@@ -226,8 +233,6 @@ pub fn c08(thorough: bool) -> Vec<Unit> {
     v
 }
 
-const TQ: &str = "projects/q/topics/t0";
-const SQ: &str = "projects/q/subscriptions/s0";
 
 /// C10 namespaces behave as maps (sequential specification).
 pub fn c10(thorough: bool) -> Vec<Unit> {
@@ -248,12 +253,20 @@ pub fn c10(thorough: bool) -> Vec<Unit> {
         Op::ListSubs("p", 1),
         Op::ListTopicSubs(T0, 0),
         Op::CreateTopic(TQ),
+        Op::CreateSub(SQ, TQ, 10),
+        Op::ListSubs("q", 1),
     ];
     let mut v = vec![];
-    for n in if thorough { vec![3, 5] } else { vec![3, 4] } {
+    for n in if thorough { vec![3, 5, 6] } else { vec![3, 4] } {
         let mut c = cfg("namespace", "one topic name, one subscription name, two projects; create/get/delete/list and data-plane calls on present and absent names", vec![], alphabet.clone(), n);
         c.all_enabled = true;
         // AckUnknown on an absent sub must be NOT_FOUND too
+        v.push(seq_unit(c));
+    }
+    // the same with a topic in each of two projects already there, so that listings that mix projects are reached early
+    {
+        let mut c = cfg("namespace-two-projects", "as above, starting with one topic in each of two projects; subscriptions with the same id in both", vec![Op::CreateTopic(T0), Op::CreateTopic(TQ)], alphabet.clone(), if thorough { 5 } else { 4 });
+        c.all_enabled = true;
         v.push(seq_unit(c));
     }
     v
